@@ -1303,18 +1303,18 @@ impl ApiEndpointVersions {
 
             (
                 ApiEndpointVersions::From(earliest),
-                ApiEndpointVersions::FromUntil(OrderedVersionPair {
-                    earliest: _,
-                    until,
+                r @ ApiEndpointVersions::FromUntil(OrderedVersionPair {
+                    earliest: earliest2,
+                    until: _,
                 }),
-            ) => earliest < until,
+            ) => r.matches(Some(&earliest)) || earliest <= earliest2,
             (
-                ApiEndpointVersions::FromUntil(OrderedVersionPair {
-                    earliest: _,
-                    until,
+                r @ ApiEndpointVersions::FromUntil(OrderedVersionPair {
+                    earliest: earliest2,
+                    until: _,
                 }),
                 ApiEndpointVersions::From(earliest),
-            ) => earliest < until,
+            ) => r.matches(Some(&earliest)) || earliest <= earliest2,
 
             (
                 u @ ApiEndpointVersions::Until(_),
